@@ -425,6 +425,8 @@ func runC08(c *Ctx) {
 	c.AtLeast("R5", "fill-until-full reads", nFull, 1)
 
 	emptyShortcutRule(c, "R7")
+	decodeFromWholeStream(c, "R8")
+	extensionKeySplit(c, "R4")
 	c08SmudgePassesAllNonPointers(c)
 	c08BlankLines(c)
 
